@@ -8,6 +8,7 @@ import (
 	"encoding/json"
 	"fmt"
 	"strings"
+	"sync/atomic"
 	"time"
 
 	"git.sr.ht/~rockorager/vaxis"
@@ -82,6 +83,9 @@ type Seg struct {
 	// Complete: the segment ends where a sequence ends, so no resync is
 	// inserted after it (what follows meets the parser as the reply left it)
 	Complete bool `json:"complete,omitempty"`
+	// PauseMs: silence after the segment's bytes, before the marker key that
+	// closes it (a lone ESC followed by silence is the Escape key)
+	PauseMs int `json:"pause_after_ms,omitempty"`
 }
 
 type streamCase struct {
@@ -134,6 +138,8 @@ type genState struct {
 	nextTag rune
 	nextPos int
 	focused bool
+	// escapes: the stream contains lone ESC keys, each followed by silence
+	escapes bool
 }
 
 func (g *genState) tag() rune {
@@ -178,6 +184,9 @@ func (g *genState) keyToken(paste bool) (string, string) {
 
 func (g *genState) token() Seg {
 	r := g.r
+	if g.escapes && r.Intn(20) == 0 {
+		return Seg{Kind: "token", Hex: "1b", Desc: "lone-escape", PauseMs: 40, Want: []string{fmt.Sprintf("key(code=%d shifted=0 base=0 mods=0 type=0 text=\"\")", vaxis.KeyEsc)}}
+	}
 	switch r.Intn(10) {
 	case 0, 1, 2, 3:
 		b, w := g.keyToken(false)
@@ -266,8 +275,15 @@ var replies = []string{
 	"\x1b[?1u", "\x1b[?31u",
 }
 
+// sequences no handler of the library knows: nothing may come of them
+var inert = []string{"\x1b_Xjunk\x1b\\", "\x1b_zz=1;OK\x1b\\", "\x1b]1337;File=x\x07", "\x1b]7;file:///tmp\x1b\\", "\x1bP=1sdata\x1b\\", "\x1b^private\x1b\\"}
+
 func (g *genState) reply() (seg Seg) {
 	r := g.r
+	if r.Intn(8) == 0 {
+		s := inert[r.Intn(len(inert))]
+		return Seg{Kind: "reply", Hex: hex.EncodeToString([]byte(s)), Desc: fmt.Sprintf("inert %q", s), WellFormed: true, Complete: true}
+	}
 	s := replies[r.Intn(len(replies))]
 	// a DCS with an empty data string followed by ST also delivers the ST
 	// (C02's open finding extra-ST:after-dcs:empty): not judged again here
@@ -338,6 +354,11 @@ func (g *genState) garbage() Seg {
 			b[i] = "[]OP_^X\\;:?<>=~Mmtcu$"[r.Intn(21)]
 		default:
 			b[i] = byte(r.Intn(256))
+			if b[i] == 0xf3 {
+				// lead byte of the marker keys (U+F0000...): random bytes
+				// must not spell a marker
+				b[i] = 0xf2
+			}
 		}
 	}
 	return Seg{Kind: "garbage", Hex: hex.EncodeToString(b), Desc: "soup"}
@@ -353,7 +374,7 @@ func (g *genState) x10() Seg {
 }
 
 func genStream(r gen.R) streamCase {
-	g := &genState{r: r}
+	g := &genState{r: r, escapes: r.Intn(4) == 0}
 	sc := streamCase{}
 	switch r.Intn(4) {
 	case 0:
@@ -372,6 +393,7 @@ func genStream(r gen.R) streamCase {
 		// a queue larger than the number of start-up notifications (which
 		// are posted without blocking) and smaller than the stream's events
 		sc.Queue, sc.Slow = r.Range(48, 96), true
+		g.escapes = false // silence means nothing to a parser that is not reading
 		sc.SuspendFirst = r.Intn(2) == 0
 		if n < 150 {
 			n = r.Range(150, 250)
@@ -392,16 +414,42 @@ func genStream(r gen.R) streamCase {
 	return sc
 }
 
+func hasEscape(evs []string) bool {
+	for _, e := range evs {
+		if strings.HasPrefix(e, fmt.Sprintf("key(code=%d ", vaxis.KeyEsc)) {
+			return true
+		}
+	}
+	return false
+}
+
 func sentinelRune(i int) rune { return rune(0xF0000 + i%0xFFF0) }
 
 // wire builds the byte stream: each segment followed by its sentinel; after
 // segments that may leave the parser or the paste state dangling a resync
 // (CAN, paste end) precedes the sentinel.
 func wire(sc streamCase) []byte {
+	out, _ := wirePauses(sc)
+	return out
+}
+
+// wirePauses also returns the byte offsets after which the writer pauses,
+// with the length of each pause.
+func wirePauses(sc streamCase) ([]byte, map[int]int) {
+	pauses := map[int]int{}
+	out := wireBytes(sc, pauses)
+	return out, pauses
+}
+
+func wireBytes(sc streamCase, pauses map[int]int) []byte {
 	var out []byte
 	for i, s := range sc.Segs {
 		b, _ := hex.DecodeString(s.Hex)
 		out = append(out, b...)
+		if s.PauseMs > 0 {
+			// the pause and the segment it belongs to
+			pauses[len(out)] = s.PauseMs + 1000*i
+		}
 		if s.Kind != "token" && !s.Complete {
 			out = append(out, 0x18)
 			out = append(out, "\x1b[201~"...)
@@ -506,7 +554,7 @@ func runStream(w *harness.W, sc streamCase, r gen.R) (violKey string) {
 			return ""
 		}
 	}
-	data := wire(sc)
+	data, pauses := wirePauses(sc)
 	// inject in random chunks
 	if sc.Chunks == nil {
 		rem := len(data)
@@ -523,6 +571,7 @@ func runStream(w *harness.W, sc streamCase, r gen.R) (violKey string) {
 		}
 	}
 	injected := make(chan struct{})
+	var markersSeen int32
 	go func() {
 		defer close(injected)
 		off := 0
@@ -533,11 +582,33 @@ func runStream(w *harness.W, sc streamCase, r gen.R) (violKey string) {
 			// a write never ends right after an ESC: on a loaded machine
 			// the pause before the next write can exceed the 10 ms after
 			// which a lone ESC is, legitimately, the Escape key (C08)
-			for off+c < len(data) && c > 0 && data[off+c-1] == 0x1b {
+			for off+c < len(data) && c > 0 && data[off+c-1] == 0x1b && pauses[off+c] == 0 {
 				c++
 			}
-			sess.Con.Inject(data[off : off+c])
-			off += c
+			// a pause inside this chunk cuts it
+			for end := off + c; off < end; {
+				cut := end
+				for q := off + 1; q < end; q++ {
+					if pauses[q] > 0 {
+						cut = q
+						break
+					}
+				}
+				sess.Con.Inject(data[off:cut])
+				off = cut
+				if pv := pauses[cut]; pv > 0 {
+					ms, seg := pv%1000, pv/1000
+					// the silence starts when everything before the ESC has
+					// reached the application and the ESC has been read
+					for k := 0; k < 100000 && int(atomic.LoadInt32(&markersSeen)) < seg; k++ {
+						time.Sleep(100 * time.Microsecond)
+					}
+					for k := 0; k < 50000 && sess.Con.PendingInput() > 0; k++ {
+						time.Sleep(100 * time.Microsecond)
+					}
+					time.Sleep(time.Duration(ms) * time.Millisecond)
+				}
+			}
 		}
 		if off < len(data) {
 			sess.Con.Inject(data[off:])
@@ -549,22 +620,46 @@ func runStream(w *harness.W, sc streamCase, r gen.R) (violKey string) {
 	}
 	// collect events per segment
 	got := make([][]string, len(sc.Segs))
+	other := make([][]string, len(sc.Segs)) // types of the events evText does not describe
 	i := 0
 	deadline := time.After(8 * time.Second)
 	for i < len(sc.Segs) {
 		select {
 		case ev := <-sess.Vx.Events():
 			if k, ok := ev.(vaxis.Key); ok && k.Keycode == sentinelRune(i) {
+				if k.Modifiers != 0 && sc.Segs[i].PauseMs > 0 && !hasEscape(got[i]) {
+					// the silence after the lone ESC was not seen by a parser
+					// that was held up: ESC and the next key read together
+					// are, legitimately, an Alt chord
+					w.Inconclusive("lone-escape-read-together-with-the-next-key")
+					return ""
+				}
+				if k.Modifiers != 0 {
+					key := "order:marker-key-altered:after-" + sc.Segs[i].Kind
+					w.Violation(key, fmt.Sprintf("the unmodified key typed after segment %d (%s) was delivered with modifiers %d: the bytes before it still held the parser", i, sc.Segs[i].Desc, k.Modifiers), sc, fmt.Sprintf("modifiers %d", k.Modifiers), "modifiers 0")
+					return key
+				}
 				i++
+				atomic.StoreInt32(&markersSeen, int32(i))
 				continue
 			}
 			if k, ok := ev.(vaxis.Key); ok && k.Keycode > sentinelRune(i) && k.Keycode < sentinelRune(i)+rune(len(sc.Segs)-i) && len(sc.Segs) < 0xFFF0 {
+				if sc.Segs[i].PauseMs > 0 && !hasEscape(got[i]) {
+					// no Escape was reported: the silence after the lone ESC
+					// was not seen by a parser that was held up, and an ESC
+					// read together with the marker swallows it
+					w.Inconclusive("lone-escape-read-together-with-the-next-key")
+					return ""
+				}
 				key := "order:later-input-delivered-first"
-				w.Violation(key, fmt.Sprintf("the marker key closing segment %d was delivered while the marker of segment %d was still outstanding", int(k.Keycode-sentinelRune(0)), i), sc, fmt.Sprintf("marker %d", int(k.Keycode-sentinelRune(0))), fmt.Sprintf("marker %d", i))
+				w.Violation(key, fmt.Sprintf("the marker key closing segment %d was delivered while the marker of segment %d was still outstanding", int(k.Keycode-sentinelRune(0)), i), sc, fmt.Sprintf("marker %d (events of segment %d so far: %v)", int(k.Keycode-sentinelRune(0)), i, got[i]), fmt.Sprintf("marker %d", i))
 				return key
 			}
 			if t, ok := evText(ev); ok {
 				got[i] = append(got[i], t)
+			}
+			if _, ok := evText(ev); !ok {
+				other[i] = append(other[i], fmt.Sprintf("%T", ev))
 			}
 		case <-deadline:
 			// liveness: corroborate with a goroutine dump
@@ -613,6 +708,11 @@ func runStream(w *harness.W, sc streamCase, r gen.R) (violKey string) {
 				return key
 			}
 		case "reply":
+			if strings.HasPrefix(s.Desc, "inert ") && (len(got[si]) > 0 || len(other[si]) > 0) {
+				key := "unknown-sequence-produced-an-event"
+				w.Violation(key, fmt.Sprintf("segment %d (%s): a control string that is no reply to anything the library asks produced events (an earlier string's content attributed to it?)", si, s.Desc), sc, strings.Join(append(append([]string{}, got[si]...), other[si]...), " | "), "no event")
+				return key
+			}
 			if s.WellFormed {
 				for _, e := range got[si] {
 					// the resync (Ctrl+x, paste-end) is ours
